@@ -112,6 +112,15 @@ Proof.
   destruct (to_vectors la lb lc ca cb cg sg) as [[va vb] vc]. cbn [fst snd] in *. exact V.
 Qed.
 
+Lemma deg_orientation_volume :
+  let '(va, vb, vc) := to_vectors_deg la lb lc alpha beta gamma in
+  (va = (la, 0, 0) /\ snd vb = 0 /\ 0 < snd (fst vb) /\ 0 < snd vc /\ 0 < det3 va vb vc) /\
+  det3 va vb vc = la * lb * lc * sqrt (gram_deg alpha beta gamma).
+Proof.
+  pose proof deg_orientation as O. pose proof deg_volume as V.
+  destruct (to_vectors_deg la lb lc alpha beta gamma) as [[va vb] vc]. split; assumption.
+Qed.
+
 (* lengths, angles -> vectors -> lengths, angles: the identity on every valid cell, in degrees *)
 Lemma deg_roundtrip :
   let '(va, vb, vc) := to_vectors_deg la lb lc alpha beta gamma in
